@@ -4,12 +4,13 @@ use crate::ast::node::Node;
 use crate::ast::Ast;
 use crate::diagnostics::{Diagnostic, Diagnostics, Error, Note};
 use crate::grammar::*;
-use std::collections::{BTreeSet, HashSet};
+use std::collections::{BTreeSet, HashMap, HashSet};
 
 pub(super) fn detect_cycles(ast: &Ast, diagnostics: &mut Diagnostics) {
     let mut cycle_detector = CycleDetector {
         type_being_checked: None,
         dependency_stack: Vec::new(),
+        types_on_cycles: find_types_on_cycles(ast),
         reported_cycles: HashSet::new(),
         diagnostics,
     };
@@ -23,10 +24,75 @@ pub(super) fn detect_cycles(ast: &Ast, diagnostics: &mut Diagnostics) {
             _ => continue,
         };
 
+        // Types that don't lie on any cycle have nothing to report; no need to enumerate the paths through them.
+        if !cycle_detector.types_on_cycles.contains(&candidate.module_scoped_identifier()) {
+            continue;
+        }
+
         debug_assert!(cycle_detector.dependency_stack.is_empty());
         cycle_detector.type_being_checked = Some((candidate.module_scoped_identifier(), candidate));
         candidate.check_for_cycles(&mut cycle_detector)
     }
+}
+
+/// Returns the type-ids of all the structs and enums that (directly or indirectly) contain themselves.
+///
+/// Reporting cycles requires enumerating every path that leads back to the type being checked, and the number of paths
+/// through a set of types can be exponential in the number of types, even if none of them forms a cycle. This is a
+/// cheap reachability check (each type is visited once per starting point) to find which types are worth checking.
+fn find_types_on_cycles(ast: &Ast) -> HashSet<String> {
+    // Adds the type-ids of all the structs and enums used by the provided type (through any anonymous types).
+    fn add_dependencies_of(type_ref: &TypeRef, dependencies: &mut Vec<String>) {
+        match type_ref.concrete_type() {
+            Types::Struct(struct_ref) => dependencies.push(struct_ref.module_scoped_identifier()),
+            Types::Enum(enum_ref) => dependencies.push(enum_ref.module_scoped_identifier()),
+            Types::ResultType(result_type) => {
+                add_dependencies_of(&result_type.success_type, dependencies);
+                add_dependencies_of(&result_type.failure_type, dependencies);
+            }
+            Types::Sequence(sequence) => add_dependencies_of(&sequence.element_type, dependencies),
+            Types::Dictionary(dictionary) => {
+                add_dependencies_of(&dictionary.key_type, dependencies);
+                add_dependencies_of(&dictionary.value_type, dependencies);
+            }
+            Types::Primitive(_) | Types::CustomType(_) => {}
+        }
+    }
+
+    // Map each struct and enum to the structs and enums that its fields use.
+    let mut dependency_map: HashMap<String, Vec<String>> = HashMap::new();
+    for node in ast.as_slice() {
+        let (type_id, fields) = match node {
+            Node::Struct(struct_def) => (struct_def.borrow().module_scoped_identifier(), struct_def.borrow().fields()),
+            Node::Enum(enum_def) => {
+                let enumerators = enum_def.borrow().enumerators();
+                let fields = enumerators.into_iter().flat_map(Enumerator::fields).collect();
+                (enum_def.borrow().module_scoped_identifier(), fields)
+            }
+            _ => continue,
+        };
+        let dependencies = dependency_map.entry(type_id).or_default();
+        for field in fields {
+            add_dependencies_of(field.data_type(), dependencies);
+        }
+    }
+
+    // A type is on a cycle if it can be reached from one of the types it depends on.
+    let mut types_on_cycles = HashSet::new();
+    for type_id in dependency_map.keys() {
+        let mut visited = HashSet::new();
+        let mut pending: Vec<&String> = dependency_map[type_id].iter().collect();
+        while let Some(dependency) = pending.pop() {
+            if dependency == type_id {
+                types_on_cycles.insert(type_id.clone());
+                break;
+            }
+            if visited.insert(dependency) {
+                pending.extend(dependency_map.get(dependency).into_iter().flatten());
+            }
+        }
+    }
+    types_on_cycles
 }
 
 /// Checks for type aliases that contain themselves through an anonymous type (`typealias A = Sequence<A>`) and for
@@ -164,6 +230,10 @@ struct CycleDetector<'a> {
     /// Each stack element is made up of the type-id of the field's type, and a reference to the field itself.
     dependency_stack: Vec<(String, &'a Field)>,
 
+    /// The type-ids of every type that contains itself. Paths that leave this set cannot lead back to the type being
+    /// checked, so there's no reason to follow them.
+    types_on_cycles: HashSet<String>,
+
     /// Stores all the cycles we've reported so far, so we can avoid reporting duplicates.
     reported_cycles: HashSet<BTreeSet<String>>,
 
@@ -219,6 +289,11 @@ impl<'a> CycleDetector<'a> {
             if seen_type_id == &candidate_type_string {
                 return;
             }
+        }
+
+        // If the candidate doesn't lie on any cycle, no path through it can lead back to the type we're checking.
+        if !self.types_on_cycles.contains(&candidate_type_string) {
+            return;
         }
 
         // If we haven't detected any cycles yet, it's safe to continue recursing.
